@@ -721,6 +721,10 @@ func (e *Env) StartRPC(parent context.Context, ch grpc.ClientConnInterface, spec
 	e.specs[spec.ID] = spec
 	e.mu.Unlock()
 	spec.ch = ch
+	// the option targets are variables the caller may have used for an earlier call: whatever they
+	// hold must be replaced by this call's (possibly empty) metadata
+	stale := func() metadata.MD { return metadata.MD{"stale-from-an-earlier-call": {"x"}} }
+	spec.hdrOpt, spec.hdrOpt2, spec.trlOpt, spec.trlOpt2 = stale(), stale(), stale(), stale()
 	ctx := parent
 	if spec.NeverCancel && spec.Timeout == 0 && !spec.CtxCause {
 		ctx = context.Background()
